@@ -371,6 +371,25 @@ theorem lbTlogProb_eq_doc (logit b : ℝ) : lbTlogProb TR logit b = lbTlogProbDo
   rw [e1, e2, h1, h0, log1p_exp_neg]
   ring
 
+theorem lb_sigmoid_neg (l : ℝ) : TR.sigmoid (-l) = 1 - TR.sigmoid l := by
+  rw [lb_sigmoid_eq, lb_sigmoid_eq, Real.exp_neg]
+  have := Real.exp_pos l
+  field_simp
+  ring
+
+theorem lb_sigmoid_pos (l : ℝ) : 0 < TR.sigmoid l ∧ TR.sigmoid l < 1 := by
+  rw [lb_sigmoid_eq]
+  have := Real.exp_pos l
+  constructor
+  · positivity
+  · rw [div_lt_one (by linarith)]; linarith
+
+theorem lb_logit_sigmoid (l : ℝ) : Real.log (TR.sigmoid l / (1 - TR.sigmoid l)) = l := by
+  have h := Real.exp_pos l
+  have e : TR.sigmoid l / (1 - TR.sigmoid l) = Real.exp l := by
+    rw [lb_sigmoid_eq]; field_simp; ring
+  rw [e, Real.log_exp]
+
 /-- `clamp_probs` lands strictly inside the unit interval (`0 < eps < 1/2`), whatever its input -/
 theorem clampProbs_mem (eps x : ℝ) (h0 : 0 < eps) (h1 : eps < 1 / 2) :
     0 < clampProbs eps x ∧ clampProbs eps x < 1 := by
